@@ -383,3 +383,454 @@ pub fn run_mask(ctx: &Ctx) {
     }
     out.finish(&ctx.out_dir, "sigmask", &[]);
 }
+
+// =================================================================================================
+// C13: chunking and call schedules
+
+/// Suite `sigchunk`: the same stream under many partitions into bindings and call schedules.
+pub fn run_chunk(ctx: &Ctx) {
+    let mut out = Out::create(&ctx.out_dir, "sigchunk");
+    let mut rng = Rng::new(ctx.seed ^ 0xC13);
+    let n_streams = if ctx.tier_thorough { 60 } else { 6 };
+    let n_sched = if ctx.tier_thorough { 160 } else { 34 };
+    for i in 0..n_streams {
+        let rate = *rng.pick(&[8000u32, 11025, 22050, 22050, 44100]);
+        let mut lg = gen_line(&mut rng, rate);
+        lg.line.noise_rel = if i % 2 == 0 { 0.0 } else { 0.03 };
+        let h = gen_header_any(&mut rng).text().into_bytes();
+        let a = transmission(lg.line.clone(), &mut rng, &h, 0.3, lg.pause, 1.5, 7, 7, 1.8);
+        let n = a.samples.len();
+        // reference: one binding
+        let mut r0 = build(Cfg::Samedec, rate);
+        let reference: Vec<SameReceiverEvent> = r0.iter_events(a.samples.iter().copied()).collect();
+        let ref_str: String = if reference.is_empty() {
+            "-".to_owned()
+        } else {
+            reference.iter().map(|e| format!("{}{}", e.input_sample_counter(), if e.message_ok().is_some() { "m" } else { "" })).collect::<Vec<_>>().join(",")
+        };
+        for k in 0..n_sched {
+            // cut points: random, inside bursts/preambles, just after bursts (hold periods), tiny chunks
+            let mut cuts: Vec<usize> = vec![];
+            let ncuts = match k % 5 {
+                0 => 0,
+                1 => 1,
+                2 => rng.range(2, 6) as usize,
+                3 => rng.range(6, 40) as usize,
+                _ => rng.range(1, 3) as usize,
+            };
+            for _ in 0..ncuts {
+                let c = match rng.below(5) {
+                    0 => rng.below(n as u64) as usize,
+                    1 => {
+                        let b = rng.pick(&a.bursts);
+                        b.0 + rng.below((b.1 - b.0) as u64) as usize
+                    }
+                    2 => {
+                        let b = rng.pick(&a.bursts);
+                        (b.0 + rng.below(16 * 8 * (rate as u64) / 520) as usize).min(n)
+                    }
+                    3 => {
+                        let b = rng.pick(&a.bursts);
+                        (b.1 + rng.below((rate as u64 * 3) / 2) as usize).min(n)
+                    }
+                    _ => {
+                        // a one-sample (or few-sample) chunk somewhere
+                        let p = rng.below(n as u64) as usize;
+                        cuts.push(p);
+                        (p + rng.range(1, 3) as usize).min(n)
+                    }
+                };
+                cuts.push(c);
+            }
+            cuts.push(n);
+            cuts.sort();
+            cuts.dedup();
+            let mut r = build(Cfg::Samedec, rate);
+            let mut calls: Vec<String> = vec![];
+            let mut sched: Vec<String> = vec![];
+            let mut cursor = 0usize; // index into the reference list
+            let mut start = 0usize;
+            for &c in &cuts {
+                let chunk = &a.samples[start..c];
+                let mode = *rng.pick(&['E', 'e', 'm', 'x']);
+                let pattern: String = if mode == 'x' { (0..rng.range(2, 9)).map(|_| *rng.pick(&['e', 'e', 'm'])).collect() } else { mode.to_string() };
+                sched.push(format!("{}:{}", c - start, pattern));
+                let mut it = chunk.iter().copied();
+                if mode == 'E' {
+                    // one binding drained to the end; each event must be the next reference event
+                    let evs: Vec<SameReceiverEvent> = r.iter_events(&mut it).collect();
+                    for e in evs {
+                        if cursor < reference.len() && reference[cursor] == e {
+                            calls.push(format!("{}@{}", cursor, e.input_sample_counter()));
+                            cursor += 1;
+                        } else {
+                            calls.push(format!("?{}@{}", show_event(&e).replace(',', ";"), e.input_sample_counter()));
+                        }
+                    }
+                    calls.push(format!("-@{}", r.input_sample_counter()));
+                } else {
+                    let pat: Vec<char> = pattern.chars().collect();
+                    let mut pi = 0;
+                    loop {
+                        let want_msg = pat[pi % pat.len()] == 'm';
+                        pi += 1;
+                        let done;
+                        if want_msg {
+                            let m = r.iter_messages(&mut it).next();
+                            let counter = r.input_sample_counter();
+                            match m {
+                                None => {
+                                    calls.push(format!("-@{}", counter));
+                                    // everything generated so far was consumed (and filtered out)
+                                    while cursor < reference.len() && reference[cursor].input_sample_counter() <= counter {
+                                        cursor += 1;
+                                    }
+                                    done = true;
+                                }
+                                Some(m) => {
+                                    done = false;
+                                    match (cursor..reference.len()).find(|&j| reference[j].message_ok() == Some(&m)) {
+                                        Some(j) => {
+                                            calls.push(format!("{}@{}", j, counter));
+                                            cursor = j + 1;
+                                        }
+                                        None => calls.push(format!("?msg@{}", counter)),
+                                    }
+                                }
+                            }
+                        } else {
+                            let e = r.iter_events(&mut it).next();
+                            let counter = r.input_sample_counter();
+                            match e {
+                                None => {
+                                    calls.push(format!("-@{}", counter));
+                                    done = true;
+                                }
+                                Some(e) => {
+                                    done = false;
+                                    if cursor < reference.len() && reference[cursor] == e {
+                                        calls.push(format!("{}@{}", cursor, counter));
+                                        cursor += 1;
+                                    } else {
+                                        calls.push(format!("?{}@{}", show_event(&e).replace(',', ";"), counter));
+                                    }
+                                }
+                            }
+                        }
+                        if done {
+                            break;
+                        }
+                    }
+                }
+                start = c;
+            }
+            let op = format!("iter.run {} {} {}", n, ref_str, sched.join("/"));
+            out.op(&op, &calls.join(","), true);
+            out.spec(&format!("spec.c13.calls {} {} {} => {}", n, ref_str, sched.join("/"), calls.join(",")));
+            out.count(&format!("chunks:{}", if cuts.len() > 8 { "9+".to_owned() } else { cuts.len().to_string() }));
+        }
+        // lifecycle oracle on the reference trace
+        out.spec(&format!("spec.sig c13life - [sigchunk.ref{}] => {}", i, show_events(&reference)));
+    }
+    out.finish(&ctx.out_dir, "sigchunk", &[]);
+}
+
+// =================================================================================================
+// C14: close-cut recordings and flush()
+
+fn msgs_str(ms: &[sameold::Message]) -> String {
+    if ms.is_empty() {
+        "-".to_owned()
+    } else {
+        ms.iter().map(|m| show_msg(m).replace(' ', "_")).collect::<Vec<_>>().join(",")
+    }
+}
+
+/// Suite `sigflush`: audio cut at/after the last sample of the final burst, then flush() until None.
+pub fn run_flush(ctx: &Ctx) {
+    let mut out = Out::create(&ctx.out_dir, "sigflush");
+    let mut rng = Rng::new(ctx.seed ^ 0xC14);
+    let rates: Vec<u32> = if ctx.tier_thorough { STD_RATES.to_vec() } else { vec![8000, 22050, 48000] };
+    let n_offsets = if ctx.tier_thorough { 50 } else { 7 };
+    for &rate in &rates {
+        for kind in ["header3", "header2", "full3", "full2", "long_header3"] {
+            let mut lg = gen_line(&mut rng, rate);
+            lg.line.noise_rel = 0.0;
+            let h = if kind == "long_header3" { gen_header(&mut rng, 31, 8) } else { gen_header_any(&mut rng) }.text().into_bytes();
+            let mut a = Audio::new(lg.line.clone());
+            a.silence(0.4, &mut rng);
+            let nh = if kind == "header2" { 2 } else { 3 };
+            for k in 0..nh {
+                a.burst(16, &h, &mut rng);
+                if k + 1 < nh {
+                    a.silence(lg.pause, &mut rng);
+                }
+            }
+            let full = kind.starts_with("full");
+            if full {
+                a.silence(2.0, &mut rng);
+                let ne = if kind == "full2" { 2 } else { 3 };
+                for k in 0..ne {
+                    a.burst(16, b"NNNN", &mut rng);
+                    if k + 1 < ne {
+                        a.silence(lg.pause, &mut rng);
+                    }
+                }
+            }
+            let end = a.samples.len();
+            // generous tail so that later cut points exist
+            a.silence(2.5, &mut rng);
+            for oi in 0..n_offsets {
+                // cut points from the last sample of the final burst onward: 0, a few samples, fractions of the hold, beyond it
+                let off = match oi {
+                    0 => 0,
+                    1 => 1,
+                    2 => rng.range(2, 200) as usize,
+                    _ => (rng.unit() * 2.2 * rate as f64) as usize,
+                };
+                let cut = (end + off).min(a.samples.len());
+                let mut r = build(Cfg::Samedec, rate);
+                sameold::verif::taps_start();
+                let before: Vec<sameold::Message> = r.iter_messages(a.samples[..cut].iter().copied()).collect();
+                let mut flushed: Vec<sameold::Message> = vec![];
+                let mut calls = 0;
+                let mut last_none = false;
+                while calls < 6 {
+                    calls += 1;
+                    match r.flush() {
+                        Some(m) => flushed.push(m),
+                        None => {
+                            last_none = true;
+                            break;
+                        }
+                    }
+                }
+                // a further flush after None must again be None
+                let again = r.flush().is_none();
+                let taps = sameold::verif::taps_take();
+                let label = format!("sigflush.{}.rate{}.off{}", kind, rate, off);
+                let (op, imp) = link_op(&taps);
+                out.op(&op, &imp, true);
+                out.spec(&format!(
+                    "spec.sig c14 {},{} [{}] => {} | {} | {}",
+                    hex(&h),
+                    full as u8,
+                    label,
+                    msgs_str(&before),
+                    msgs_str(&flushed),
+                    if last_none && again { "none" } else { "NOT-NONE" }
+                ));
+                out.count(&format!("kind:{}", kind));
+                out.count(&format!("delivered_by_flush:{}", flushed.len()));
+            }
+        }
+    }
+    out.finish(&ctx.out_dir, "sigflush", &[]);
+}
+
+// =================================================================================================
+// C09: every StartOfMessage is closed
+
+/// Suite `siglong`: a header followed by >= 140 s of other audio.
+pub fn run_long(ctx: &Ctx) {
+    let mut out = Out::create(&ctx.out_dir, "siglong");
+    let mut rng = Rng::new(ctx.seed ^ 0xC09);
+    let kinds = [
+        "silence", "noise", "tone_mark", "programme", "repeated_preambles", "valid_char_carrier", "further_header", "trailer_late", "fsk_garbage_carrier", "preamble_forever", "lone_bursts", "valid_char_bursts",
+    ];
+    let n = if ctx.tier_thorough { 120 } else { kinds.len() };
+    for i in 0..n {
+        let kind = kinds[i % kinds.len()];
+        let rate = if ctx.tier_thorough { pick_rate(&mut rng, i) } else { *rng.pick(&[8000u32, 11025, 22050]) };
+        let mut lg = gen_line(&mut rng, rate);
+        lg.line.noise_rel = 0.0;
+        let h = gen_header_any(&mut rng).text().into_bytes();
+        let mut a = Audio::new(lg.line.clone());
+        a.silence(0.5, &mut rng);
+        for k in 0..3 {
+            a.burst(16, &h, &mut rng);
+            if k < 2 {
+                a.silence(lg.pause, &mut rng);
+            }
+        }
+        a.silence(1.5, &mut rng);
+        let follow = 141.0;
+        match kind {
+            "silence" => a.silence(follow, &mut rng),
+            "noise" => noise(&mut a, &mut rng, follow),
+            "tone_mark" => tone(&mut a, MARK_HZ, follow),
+            "programme" => programme(&mut a, &mut rng, follow),
+            "repeated_preambles" => {
+                for _ in 0..90 {
+                    a.burst(16, &[], &mut rng);
+                    a.silence(1.2, &mut rng);
+                }
+            }
+            "valid_char_carrier" => {
+                // one endless burst: preamble, ZCZC, then valid characters for 141 s
+                let nbytes = (follow * BAUD / 8.0) as usize;
+                let mut p = b"ZCZC-".to_vec();
+                p.extend((0..nbytes).map(|_| *rng.pick(CALL_CHARS)));
+                a.burst(16, &p, &mut rng);
+            }
+            "fsk_garbage_carrier" => {
+                let nbytes = (follow * BAUD / 8.0) as usize;
+                let p: Vec<u8> = (0..nbytes).map(|_| rng.next() as u8).collect();
+                a.burst(16, &p, &mut rng);
+            }
+            "preamble_forever" => {
+                let nbytes = (follow * BAUD / 8.0) as usize;
+                a.burst(nbytes, &[], &mut rng);
+            }
+            "further_header" => {
+                a.silence(60.0, &mut rng);
+                let h2 = gen_header_any(&mut rng).text().into_bytes();
+                for k in 0..3 {
+                    a.burst(16, &h2, &mut rng);
+                    if k < 2 {
+                        a.silence(lg.pause, &mut rng);
+                    }
+                }
+                a.silence(140.0, &mut rng);
+            }
+            "trailer_late" => {
+                a.silence(100.0, &mut rng);
+                for k in 0..3 {
+                    a.burst(16, b"NNNN", &mut rng);
+                    if k < 2 {
+                        a.silence(lg.pause, &mut rng);
+                    }
+                }
+                a.silence(40.0, &mut rng);
+            }
+            "lone_bursts" => {
+                // single bursts of various headers every 20 s: never decodable, keep the link busy now and then
+                for _ in 0..7 {
+                    let hx = gen_header_any(&mut rng).text().into_bytes();
+                    a.burst(16, &hx, &mut rng);
+                    a.silence(20.0, &mut rng);
+                }
+            }
+            _ => {
+                // back-to-back long bursts of valid characters (each hits the length cap)
+                let mut t = 0.0;
+                while t < follow {
+                    let mut p = b"ZCZC-".to_vec();
+                    p.extend((0..600).map(|_| *rng.pick(CALL_CHARS)));
+                    a.burst(16, &p, &mut rng);
+                    a.silence(0.3, &mut rng);
+                    t += 8.0 * 621.0 / BAUD + 0.3;
+                }
+            }
+        }
+        a.silence(3.0, &mut rng);
+        let mut r = build(Cfg::Samedec, rate);
+        let (evs, taps) = run_tapped(&mut r, &a.samples);
+        let label = format!("siglong.{}.rate{}", kind, rate);
+        let (op, imp) = link_op(&taps);
+        out.op(&op, &imp, true);
+        let (op, imp) = rx_op(rate, &taps, &evs);
+        out.op(&op, &imp, true);
+        let evline = show_events(&evs);
+        out.spec(&format!("spec.sig c09 {} [{}] => {}", rate, label, evline));
+        out.spec(&format!("spec.sig c04 {} [{}] => {}", rate, label, evline));
+        out.spec(&format!("spec.sig c13life - [{}] => {}", label, evline));
+        out.count(&format!("kind:{}", kind));
+        let maxb = evs.iter().filter_map(|e| e.burst().map(|b| b.len())).max().unwrap_or(0);
+        out.count(&format!("max_burst_len_bucket:{}", maxb / 50 * 50));
+        out.count(&format!("resyncs_bucket:{}", taps.bytes.iter().filter(|b| b.is_resync).count() / 10 * 10));
+    }
+    out.finish(&ctx.out_dir, "siglong", &[]);
+}
+
+// =================================================================================================
+// C18: reset()
+
+/// Debug rendering with the fields the model proves dead masked out:
+/// the equalizer's training mode (the next use is always preceded by `train()`).
+fn masked_debug(r: &SameReceiver) -> String {
+    let s = format!("{:?}", r);
+    // mode: EnabledFeedback | Disabled | EnabledTraining(a, b)
+    let mut out = String::with_capacity(s.len());
+    let mut rest = s.as_str();
+    while let Some(i) = rest.find("mode: ") {
+        out.push_str(&rest[..i]);
+        out.push_str("mode: _");
+        let after = &rest[i + 6..];
+        let end = if after.starts_with("EnabledTraining(") { after.find(')').map(|k| k + 1).unwrap_or(0) } else { after.find(|c: char| !c.is_alphanumeric()).unwrap_or(after.len()) };
+        rest = &after[end..];
+    }
+    out.push_str(rest);
+    out
+}
+
+/// the first place where two Debug renderings differ, with the nearest field name before it
+fn first_diff(a: &str, b: &str) -> String {
+    if a == b {
+        return "-".to_owned();
+    }
+    let k = a.bytes().zip(b.bytes()).position(|(x, y)| x != y).unwrap_or(a.len().min(b.len()));
+    let ctx_start = a[..k].rfind(|c: char| c == '{' || c == ',').map(|i| i + 1).unwrap_or(0);
+    // walk back to the enclosing struct name
+    let strukt = a[..ctx_start].rfind(" {").map(|i| a[..i].rsplit(|c: char| !c.is_alphanumeric()).next().unwrap_or("")).unwrap_or("");
+    let field: String = a[ctx_start..].chars().take_while(|c| *c != ',' && *c != '}').collect();
+    let field_b: String = b[ctx_start.min(b.len())..].chars().take_while(|c| *c != ',' && *c != '}').collect();
+    format!("{}.{{{}}}!={{{}}}", strukt, field.trim(), field_b.trim()).replace(' ', "")
+}
+
+/// Suite `sigreset`: reset() swept through every phase of a transmission, then compared with a fresh receiver.
+pub fn run_reset(ctx: &Ctx) {
+    let mut out = Out::create(&ctx.out_dir, "sigreset");
+    let mut rng = Rng::new(ctx.seed ^ 0xC18);
+    let n = if ctx.tier_thorough { 600 } else { 48 };
+    for i in 0..n {
+        let rate = *rng.pick(&[8000u32, 22050, 22050, 44100]);
+        let cfg = if i % 3 == 0 { Cfg::Default } else { Cfg::Samedec };
+        let mut lg = gen_line(&mut rng, rate);
+        lg.line.noise_rel = 0.0;
+        let h = gen_header_any(&mut rng).text().into_bytes();
+        let prefix = transmission(lg.line.clone(), &mut rng, &h, 0.4, lg.pause, 1.5, 7, 7, 1.0);
+        let b = &prefix.bursts;
+        let phase = i % 10;
+        let sps = rate as usize / 520;
+        let p = match phase {
+            0 => 0,
+            1 => rng.below(b[0].0 as u64) as usize,                      // idle, in the lead-in
+            2 => b[0].0 + rng.range(1, 14) as usize * 8 * sps,           // mid-preamble of burst 1
+            3 => (b[0].0 + b[0].1) / 2,                                  // mid-burst
+            4 => b[1].1 + rng.below((rate / 2) as u64) as usize,         // message pending (two bursts heard)
+            5 => (b[2].0 + b[2].1) / 2,                                  // mid third burst
+            6 => b[2].1 + rate as usize / 4,                             // hold running
+            7 => b[2].1 + (rate as usize * 7) / 4,                       // just after the StartOfMessage
+            8 => (b[4].0 + b[4].1) / 2,                                  // mid-trailer
+            _ => rng.below(prefix.samples.len() as u64) as usize,
+        }
+        .min(prefix.samples.len());
+        let mut r = build(cfg, rate);
+        let _ = run_plain(&mut r, &prefix.samples[..p]);
+        r.reset();
+        let fresh = build(cfg, rate);
+        let label = format!("sigreset.phase{}.rate{}.cfg{:?}.p{}", phase, rate, cfg, p);
+        out.spec(&format!("spec.c18.state [{}] => {}", label, first_diff(&masked_debug(&r), &masked_debug(&fresh))));
+        // subsequent stream: a clean or impaired transmission starting 0..0.3 s after the reset
+        let mut lg2 = gen_line(&mut rng, rate);
+        if i % 2 == 0 {
+            lg2.line.noise_rel = 0.0;
+        }
+        let h2 = gen_header_any(&mut rng).text().into_bytes();
+        let lead2 = rng.unit() * 0.3;
+        let next = transmission(lg2.line.clone(), &mut rng, &h2, lead2, lg2.pause, 1.5, 7, 7, 2.0);
+        let (evs_r, taps) = run_tapped(&mut r, &next.samples);
+        let mut f = fresh;
+        let evs_f = run_plain(&mut f, &next.samples);
+        out.spec(&format!("spec.c18.events [{}] => {} || {}", label, show_events(&evs_r), show_events(&evs_f)));
+        // and the in-situ correspondence of the models on the post-reset run
+        let (op, imp) = link_op(&taps);
+        out.op(&op, &imp, true);
+        let (op, imp) = rx_op(rate, &taps, &evs_r);
+        out.op(&op, &imp, true);
+        out.count(&format!("phase:{}", phase));
+        out.count(&format!("cfg:{:?}", cfg));
+    }
+    out.finish(&ctx.out_dir, "sigreset", &[]);
+}
